@@ -149,8 +149,6 @@ TypeOK == /\ start \in T /\ end \in T /\ has \in BOOLEAN /\ arg \in T
 \* the iterator never needs a value outside T
 NeedsNoValueOutsideT == touched \subseteq T
 
-IsPrefix(s, t) == Len(s) <= Len(t) /\ \A i \in 1..Len(s) : s[i] = t[i]
-
 \* what has been yielded is always a prefix of the denoted sequence, and cur is the next element
 \* (stated locally, so that it is cheap to evaluate in every state:  element k is start + (k-1)*step)
 YieldsTheSequence ==
@@ -188,7 +186,7 @@ Termination == <>(phase \in {"done", "rejected"})
 \* before it yields `last`.  For a checked type this fails (overflow/underflow) exactly when
 \* last + step is not a value of T, and then the whole loop fails; for a wrapping (Word) type
 \* the sum wraps around to a value that is not beyond `end`, so the loop continues from there
-\* and never terminates.
+\* (often for ever).
 EagerNextLeavesT(s, e, st) == (Last(s, e, st) + st) \notin T
 
 DevIter(s, e, st) ==
